@@ -72,6 +72,17 @@ CHECKS.update({
    text="TLC enumerates all 450k (transaction, store) pairs with <=1 compare, <=2 success and <=1 failure operations and checks that a recognised transaction is executed exactly as etcd semantics prescribe (success flag, store effect, failure-branch key-value) and that every other shape is rejected without effect. A structure-stratified sample (all of it in the thorough tier) is sent to the real handler over a seeded store and re-judged by TLC. Histories of the four Kubernetes shapes are issued through the real Txn, Range (point, range, limit, count-only) and Watch (fake gRPC stream, prev_kv on deletes) handlers on four engines and judged by the MVCC monitors. Two deviations are recorded as known findings (D17 unguarded delete of a missing key, D18 count under a limit).",
    ref="6/C16"),
 })
+CHECKS.update({
+ "C17": dict(technique="TLA+ sequential model with expiry (KBSeq.tla: compaction marks that age beyond the TTL) model-checked by TLC; TLC-generated histories with Event records and look-alike keys run on the TiKV mock with a real 1 s TTL; scripted TTL scenarios on engines with native TTL; TLC trace validation (NotBeforeTTL, ExpireWholly, only Event keys lose readable versions)",
+   text="TLC checks OnlyEventsExpire / NonEventsKeepHistory / ExpiredAbsent over all bounded histories with compactions whose marks age or not. Generated histories (Event records, a pod in a namespace called events, plain keys) run on the TiKV mock with real sleeps; at every logged compaction delete the monitor decides whether it is a safe compaction delete or an expiry, and an expiry is accepted only for an Event key whose newest change is older than the TTL; after each compaction Event keys must be wholly present or wholly gone; no watch event may announce an expiry; re-creation must work. On memkv, Badger and the metrics wrapper a scripted scenario with explicit expectations covers native TTL (young Events survive, look-alikes survive, rewritten Events keep index and version together).",
+   ref="6/C17"),
+ "C18": dict(technique="TLA+ decision table and follower-read protocol (RolesTable.tla, Roles.tla) model-checked by TLC; every table cell executed on the real etcd/brain handlers with the real revision syncer; the complete protocol behaviour space replayed on the real revision syncer with the leader's answer and every SetCurrentRevision as gates; TLC trace validation (TraceRoles.tla)",
+   text="The table (14 request types x role x proxy x leader reachable/unreachable/error) is checked by TLC against the property's clauses and executed cell by cell on the real handlers over a recording backend: followers never reach a backend write or watch, forward or reject as unavailable, set the leader's revision before reading, fail when the leader cannot be reached. The read protocol is model-checked (holds without shared fetches and with a raising store; the implemented single-flight / plain-store protocol has counterexamples) and all its 4596 behaviours are executed on the real syncer; stale reads appear exactly where the model predicts them and are reported as known findings D11a/D11b.",
+   ref="6/C18"),
+ "C20": dict(technique="TLA+ abstract request space (Requests.tla) enumerated by TLC; every request instantiated and sent to the real handlers of one long-lived node per engine with the real Prometheus client, liveness probe after each; TLC trace validation (Answered, StillLive, NoMetricPanic, Validated, MetricLabelsConsistent)",
+   text="All 4926 abstract requests (17 handlers, one class per field incl. hostile keys, negative / future / magic revisions, huge and negative limits, unsupported and nested transactions, missing fields) are sent in a seed-dependent order to long-lived nodes on memkv and the TiKV mock (thorough: Badger and the metrics wrapper too); handler panics are caught, panics of the metrics client are recorded by a wrapper around the real client, a process death is attributed to the request in flight. The monitors require an answer, a live node after every request, no metric panic, one label-name set per metric name, and rejection of the requests the handlers must validate away.",
+   ref="6/C20", note="metric call sites on paths the request space does not reach are not exercised (listed in the evidence assumptions). Trusted base as above."),
+})
 NA = {
  "C19": "data-race freedom is a property of memory accesses under the Go memory model; a TLA+ specification has no notion of an unsynchronised access and trace validation cannot observe one (see DESIGN.md section 6, C19)",
 }
